@@ -328,6 +328,8 @@ def classify(line, impl, cls):
     if cs and all(c is not None for c in cs): return cs[0]
     rc = row_classes(case)
     if rc: return sorted(rc)[0]
+    if fm.mixed_eq_chain(case):
+        return "floatlineq_mixed_chain"   # a mixed float equality chained to a second float equality (see fm.mixed_eq_chain)
     if impl.startswith("err NoSolution") and fm.bounds_pinch_offgrid(case):
         return "bounds_pinch_offgrid"   # constant bounds pinch a float variable to a non-empty interval without a grid point
     if impl.startswith("err NoSolution") and any(r.linear and r.rel == "eq" and any(case.is_float(v) for v in r.coeffs) for r in case.rows):
